@@ -30,11 +30,12 @@ TZ == TArg(<<O(".", VStr("z"))>>)            \* T.z    (0)
 TK == TArg(<<O("[", Lit(VStr("k")))>>)       \* T['k'] (5 on the dict)
 SN == SpecArg(<<O(".", VStr("n"))>>)         \* Spec(T.n)
 
-AttrOps == {O(".", VStr(a)) : a \in {"n", "z", "s", "l", "d", "t", "echo", "first", "boom", "seven", "x", "none"} \cup
+AttrOps == {O(".", VStr(a)) : a \in {"n", "z", "s", "l", "d", "t", "echo", "first", "boom", "seven", "x", "none", "lazy"} \cup
                                      (IF Level >= 2 THEN {"m"} ELSE {})}
 TL == TArg(<<O(".", VStr("l"))>>)            \* T.l    (a list on the object: unhashable as an index)
 ItemArgs == {Lit(VInt(0)), Lit(VInt(-1)), Lit(VInt(5)), Lit(VStr("k")), Lit(VStr("x")), TN, TZ, TL,
              [a |-> "list", items |-> <<Lit(VStr("k"))>>],
+             [a |-> "tuple", items |-> <<Lit(VInt(0))>>],          \* T[(0,)]: a one-element tuple is not its element
              SliceArg(VInt(0), VInt(1), VNone), SliceArg(VNone, VNone, VInt(-1)), SliceArg(VNone, VInt(0), VNone)} \cup
             (IF Level >= 2 THEN {Lit(VStr("o")), Lit(VNone), TK, SN, SliceArg(VInt(1), VNone, VNone),
                            SliceArg(VInt(-1), VInt(0), VInt(-1)), SliceArg(VNone, VInt(5), VInt(2)),
@@ -56,8 +57,10 @@ BinArgs == {Lit(VInt(2)), Lit(VInt(0)), TN, Lit(VStr("s")), Lit(VInt(1)), Lit(VF
             [a |-> "list", items |-> <<Lit(VInt(9))>>]} \cup
            (IF Level >= 2 THEN {Lit(VInt(-2)), Lit(VInt(3)), TZ, [a |-> "list", items |-> <<Lit(VInt(9))>>], Lit(VNone)} ELSE {})
 ArithOps == {O(b, a) : b \in BinOps, a \in BinArgs} \cup {O("~", VNone), O("_", VNone)}
-TinyAttr == {O(".", VStr(a)) : a \in {"n", "l", "d", "echo", "boom", "x", "none"}}
-TinyItem == {O("[", a) : a \in {Lit(VInt(0)), Lit(VStr("k")), TN, TL, SliceArg(VNone, VNone, VInt(-1)), SliceArg(VNone, VInt(0), VNone)}}
+\* "lazy": the harness's object class defines it as a property whose getter raises AttributeError -- for the
+\* expression that is an attribute that cannot be had, like "x"
+TinyAttr == {O(".", VStr(a)) : a \in {"n", "l", "d", "echo", "boom", "x", "none", "lazy"}}
+TinyItem == {O("[", a) : a \in {Lit(VInt(0)), Lit(VStr("k")), TN, TL, [a |-> "tuple", items |-> <<Lit(VInt(0))>>], SliceArg(VNone, VNone, VInt(-1)), SliceArg(VNone, VInt(0), VNone)}}
 TinyArith == {O(b, a) : b \in {"+", "*", "#", "%", ":", "&"},
                         a \in {Lit(VInt(2)), Lit(VInt(0)), Lit(VFrac(1, 1)), TN, [a |-> "list", items |-> <<Lit(VInt(9))>>]}} \cup {O("~", VNone)}
 Alphabet == IF Level = 0 THEN TinyAttr \cup TinyItem \cup CallOps \cup TinyArith
